@@ -49,7 +49,6 @@ func mirrorIPFIXDispatcher(ch chan IPFIXUDPMsg) {
 		}
 	}
 
-	ipfixMirrorEnabled = true
 	logger.Printf("ipfix mirror service is running (workers#: %d) ...", opts.IPFIXMirrorWorkers)
 
 	for {
